@@ -113,6 +113,11 @@ def facts():
                        "truev": str(getattr(pf, "_true_value", "")), "choices": [str(c) for c in getattr(pf, "_choices", [])],
                        "t_exists": False, "t_kind": "", "t_max": -1, "t_on": [], "t_opts": [], "label": "", "lineno": "", "excused": False, "probes": [],
                        "t_format": "", "texts": []}
+                # a box inside row N of a template table (".RowN[0]."), filled from a line that belongs to a numbered entry ("dependent_1_odc")
+                mrow = re.search(r"\.Row(\d+)\[0\]\.", pf.pdf_field_name)
+                midx = re.search(r"_(\d+)(_|$)", lbase)
+                rec["row"] = int(mrow.group(1)) if mrow else 0
+                rec["idx"] = int(midx.group(1)) if midx else -1
                 if tree is not None and pf.pdf_field_name in tree:
                     t = tree[pf.pdf_field_name]
                     rec.update({"t_exists": True, "t_kind": t["kind"], "t_max": t["maxchars"] if t["maxchars"] is not None else -1,
